@@ -53,10 +53,14 @@ type rtCall struct {
 type served struct {
 	NetErr bool // RoundTrip returns an error, no response
 	Stall  bool // no answer at all: RoundTrip blocks until the request's context is done
-	Status int
-	Header http.Header
-	Body   []byte
-	CutAt  int // >=0: the body delivers Body[:CutAt] and then io.ErrUnexpectedEOF
+	// CloseErr: the body reads completely, then Close fails (a connection torn down after the last byte)
+	CloseErr bool
+	// Parsable (C13): a 200 whose body parses as JSON of the response structure but is not the plain correct answer
+	Parsable bool
+	Status   int
+	Header   http.Header
+	Body     []byte
+	CutAt    int // >=0: the body delivers Body[:CutAt] and then io.ErrUnexpectedEOF
 
 	// bookkeeping for the oracles
 	Kind   string // response class (C13) / mutation name (C12)
@@ -92,6 +96,9 @@ func (o *served) String() string {
 	if o.CutAt >= 0 {
 		s += fmt.Sprintf(" cut@%d", o.CutAt)
 	}
+	if o.CloseErr {
+		s += " close-error"
+	}
 	if v := o.Header.Get("Retry-After"); v != "" {
 		s += fmt.Sprintf(" retry-after=%q", v)
 	}
@@ -105,10 +112,11 @@ var errInjectedNet = errors.New("injected transport error: connection reset by s
 var errShutdown = errors.New("simulation shutting down")
 
 type bodyReader struct {
-	data   []byte
-	pos    int
-	cut    bool
-	closed bool
+	data     []byte
+	pos      int
+	cut      bool
+	closed   bool
+	closeErr bool
 }
 
 func (b *bodyReader) Read(p []byte) (int, error) {
@@ -126,7 +134,13 @@ func (b *bodyReader) Read(p []byte) (int, error) {
 	return n, nil
 }
 
-func (b *bodyReader) Close() error { b.closed = true; return nil }
+func (b *bodyReader) Close() error {
+	b.closed = true
+	if b.closeErr {
+		return errors.New("injected: connection reset while closing the response body")
+	}
+	return nil
+}
 
 // transport is the scripted RoundTripper: every RoundTrip parks in a kernel seam
 // (party = the actor of the request's context) until the driver has decided the answer.
@@ -226,7 +240,7 @@ func (t *transport) RoundTrip(req *http.Request) (*http.Response, error) {
 	if o.NetErr {
 		return nil, errInjectedNet
 	}
-	br := &bodyReader{data: o.Body}
+	br := &bodyReader{data: o.Body, closeErr: o.CloseErr}
 	if o.CutAt >= 0 && o.CutAt <= len(o.Body) {
 		br.data = o.Body[:o.CutAt]
 		br.cut = true
@@ -284,8 +298,8 @@ func capturePanic(r any) string {
 // panicSite extracts the first /repo function on a captured panic stack, for violation keys.
 func panicSite(p string) string {
 	for _, part := range strings.Split(p, " | ") {
-		if i := strings.Index(part, "certificate-transparency-go/"); i >= 0 {
-			return part[i+len("certificate-transparency-go/"):]
+		if i := strings.Index(part, "certificate-transparency-go"); i >= 0 {
+			return strings.TrimLeft(part[i+len("certificate-transparency-go"):], "/.") // root package: "...-go.Func"
 		}
 	}
 	return "unknown"
